@@ -8,6 +8,8 @@
         VIOLATION (exit 1) within the budget; prints a table.
   ./check selftest simfs [N]                   Hypothesis rule-based comparison of SimFS with
         the real file system on a temp directory.
+  ./check selftest sqlite-kill                 real fork + os._exit at every SQL statement of a
+        set of storage calls vs the simulator's connection-drop model (C05/C19 crash model).
 """
 from __future__ import annotations
 
@@ -114,5 +116,9 @@ def main(argv: list[str]) -> int:
         return mutants(argv[1:])
     if argv[0] == "simfs":
         return simfs(argv[1:])
+    if argv[0] == "sqlite-kill":
+        from . import sqlkill_selftest
+
+        return sqlkill_selftest.main(argv[1:])
     print(__doc__)
     return 2
